@@ -689,3 +689,39 @@ defines rank-1 operands only next to a rank >= 2 operand or untransposed) and is
         ("C01_every_closure_total", "closure_total_proved", "every built-in closure succeeds on a well-shaped delta and its outputs flatten to the children's dimensions"),
         ("C01_guarded_engine_total", "guarded_total", "abstract engine: guarded totality of the operations implies the pass succeeds"),
     ])
+
+TABLE["C19rounding"] = dict(
+    title="(closeness) rounding-error bounds: f32 and f64 results agree to within single-precision rounding of the terms involved",
+    imports="""From Coq Require Import List Reals.
+From Flocq Require Import Core.
+From Corgi Require Import Lib.OptionMonad Lib.Sums Model.Scalar Model.RealScalar Model.RoundedScalar Model.Arr Model.SlicedOp
+     Model.Elementwise Model.Linalg Model.Image Proofs.ArrFacts Proofs.BroadcastDims Proofs.SpecDefs Proofs.MatmulSpec
+     Proofs.ConvSpec Proofs.RealDerivs Proofs.RoundingSpec.
+Import ListNotations.
+Open Scope R_scope.""",
+    intro="""[rounded_ops emin prec] is the model's scalar instance over the reals in which every arithmetic operation is the
+exact operation followed by Flocq's round-to-nearest-even in the format FLT(emin, prec): binary32 = (-149, 24),
+binary64 = (-1074, 53) (overflow, NaN and signed zeros are not modelled; exp/ln/pow are an idealised correctly rounded
+libm).  u = 2^-prec is the unit round-off, eta = 2^(emin-1) the underflow unit, theta k = (1+u)^k - 1 <= gamma k =
+k u / (1 - k u).  These are the classical forward error bounds (Higham) for the model's accumulating operations in the
+exact order corgi adds in: [C19_sum_error], [C19_dot_error]; lifted to the array operations against the exact
+real-number result of the SAME model function ([C19_matmul_error], [C19_conv_error], [C19_sum_op_error],
+[C19_elementwise_error]); and the statement the property makes - binary32 against binary64 on the same data -
+[C19_matmul_f32_vs_f64]: |v32 - v64| <= (gamma_24(n+1) + gamma_53(n+1)) * (|c| + sum |a_k b_k|) + underflow terms.
+NOT covered: compositions of operations (softmax, whole forward passes, gradients), which remain validated by the
+differential run against the --features f32 build.  Axioms: Coq's Reals axioms and Classical_Prop.classic (Flocq adds none).""",
+    items=[
+        ("C19_round_error", "rn_err", "one rounding: |rnd x - x| <= u |x| + eta"),
+        ("C19_add_error", "fadd_err", "addition of representable numbers: purely relative error"),
+        ("C19_mul_error", "fmul_err", "multiplication"),
+        ("C19_sum_error", "vsum_err_gamma", "the model's left-fold sum of n terms: gamma_(n-1) * sum |terms|"),
+        ("C19_dot_error", "dot_err_gamma", "c + sum a_k b_k as the model computes it: gamma_(n+1) * (|c| + sum |a_k b_k|) + underflow"),
+        ("C19_matmul_error", "matmul_rounding", "every matmul element, all flag pairs and additive terms, against the exact real result"),
+        ("C19_conv_error", "conv_rounding", "every convolution element"),
+        ("C19_sum_op_error", "a_sum_rounding", "sum(k)"),
+        ("C19_elementwise_error", "ew_rounding", "add / mul / div with broadcasting: one rounding each"),
+        ("C19_matmul_f32_vs_f64", "matmul_f32_f64", "binary32 against binary64 on the same data"),
+        ("C19_conv_two_formats", "conv_two_formats", "convolution in two formats"),
+        ("C19_sum_two_formats", "a_sum_two_formats", "sum(k) in two formats"),
+        ("C19_theta_le_gamma", "theta_le_gamma", "(1+u)^k - 1 <= k u / (1 - k u)"),
+    ])
